@@ -285,6 +285,16 @@ func (r *replicator) processHash(ctx context.Context, item processItem) ([]cid.C
 		return nil, fmt.Errorf("unable to fetch log: entry %s was not fetched", hash.String())
 	}
 
+	// the fetched log is created with this store's id whatever its entries say, and a join
+	// adopts the heads of the joined log even when it adds none of its entries: an entry
+	// written for another database must not get that far
+	logID := r.store.OpLog().GetID()
+	for _, e := range l.GetEntries().Slice() {
+		if e.GetLogID() != logID {
+			return nil, fmt.Errorf("unable to fetch log: entry %s belongs to another log", e.GetHash().String())
+		}
+	}
+
 	r.muBuffer.Lock()
 	r.buffer = append(r.buffer, l)
 	r.muBuffer.Unlock()
